@@ -717,7 +717,10 @@ int write_msa_fasta(struct msa* msa,char* outfile)
                 }
         }
         if(outfile){
-                fclose(f_ptr);
+                int write_error = ferror(f_ptr);
+                if(fclose(f_ptr) != 0 || write_error){
+                        ERROR_MSG("Writing to %s failed.", outfile);
+                }
         }
 
         return OK;
@@ -865,7 +868,10 @@ int write_msa_clu(struct msa* msa,char* outfile)
 
         }
         if(outfile){
-                fclose(f_ptr);
+                int write_error = ferror(f_ptr);
+                if(fclose(f_ptr) != 0 || write_error){
+                        ERROR_MSG("Writing to %s failed.", outfile);
+                }
         }
         free_line_buffer(lb);
         /* MFREE(linear_seq); */
@@ -1143,7 +1149,10 @@ int write_msa_msf(struct msa* msa,char* outfile)
                 fprintf(f_ptr, "%s\n", ol->line);
         }
         if(outfile){
-                fclose(f_ptr);
+                int write_error = ferror(f_ptr);
+                if(fclose(f_ptr) != 0 || write_error){
+                        ERROR_MSG("Writing to %s failed.", outfile);
+                }
         }
         free_line_buffer(lb);
         /* MFREE(linear_seq); */
